@@ -325,6 +325,7 @@ class SimNet:
         self.conns = []
         self.next_port = 0
         self.blackholes = set()    # (host, port) that never answer
+        self.force_local_port = None
         self.refuse = set()
 
     def rng_frag(self, sock):
@@ -346,6 +347,9 @@ class SimNet:
         sock.remote = (addr[0], addr[1])
         self.next_port += 1
         sock.local = (sock.owner.host, 40000 + self.next_port % 20000)
+        if self.force_local_port is not None:
+            sock.local = (sock.owner.host, self.force_local_port)     # same 4-tuple as an earlier connection
+            self.force_local_port = None
         sock.conn_id = len(self.conns)
         self.conns.append(sock)
         lat = self.latency(sock)
